@@ -186,6 +186,7 @@ class Preferences:
         self.validOnly = False
 
 
+_escapeend = re.compile(r'(\\[0-9a-fA-F]{1,6})(?:\r\n|[\t\r\n\f])').sub
 _endswithescape = re.compile(r'\\[0-9a-fA-F]{1,6} \Z').search
 
 
@@ -342,7 +343,9 @@ class CSSSerializer:
             return rule.atkeyword  # default
         else:
             # not every rule keeps its literal keyword
-            return getattr(rule, '_keyword', None) or rule.atkeyword
+            keyword = getattr(rule, '_keyword', None) or rule.atkeyword
+            # a line break which ends an escape would take the indent of a block
+            return _escapeend(r'\1 ', keyword)
 
     def _indentblock(self, text, level):
         """
